@@ -1128,11 +1128,15 @@ fn big_outbound(rng: &mut Rng, seed: u64, verbose: bool) -> CaseOut {
 fn ends_inside_outbound(rng: &mut Rng, seed: u64, verbose: bool) -> CaseOut {
     let mut out = CaseOut::default();
     let cfg = CaseCfg { rx: 128, tx: 512, keepalive: 0, ..CaseCfg::default() };
-    let request = match rng.below(4) {
+    let request = match rng.below(6) {
         0 => pub1("w", 1, rng.below(20)),
         1 => pubq(2, "w2", 2, rng.below(20)),
         2 => Step::Subscribe(SubSpec { filters: vec![FilterSpec { filter: "w/#".into(), max_qos: 1, no_local: false, rap: false, rh: 0 }], props: vec![], cancel_at: None }),
-        _ => Step::Unsubscribe(UnsubSpec { filters: vec!["w".into(), "x/y".into()], props: vec![], cancel_at: None }),
+        3 => Step::Unsubscribe(UnsubSpec { filters: vec!["w".into(), "x/y".into()], props: vec![], cancel_at: None }),
+        // the request given up inside its own packet is the DISCONNECT itself: held in the inline
+        // control storage (reason only) or parked in the arena (with properties)
+        4 => Step::Disconnect(DiscSpec { reason: Some(*rng.pick(&[4u8, 0x98])), props: None, cancel_at: None }),
+        _ => Step::Disconnect(DiscSpec { reason: *rng.pick(&[None, Some(4u8)]), props: Some(vec![Prop::ReasonString("closing for the night".into())]), cancel_at: None }),
     };
     // an earlier, fully sent and unacknowledged request in front of it (or not)
     let earlier = rng.chance(1, 2);
@@ -1203,11 +1207,15 @@ fn ends_inside_outbound(rng: &mut Rng, seed: u64, verbose: bool) -> CaseOut {
 fn send_buffer_full(rng: &mut Rng, seed: u64, verbose: bool) -> CaseOut {
     let mut out = CaseOut::default();
     let cfg = CaseCfg { rx: 128, tx: 512, keepalive: 0, ..CaseCfg::default() };
-    let request = match rng.below(4) {
+    let request = match rng.below(6) {
         0 => pub1("w", 1, rng.below(20)),
         1 => pubq(2, "w2", 2, rng.below(20)),
         2 => Step::Subscribe(SubSpec { filters: vec![FilterSpec { filter: "w/#".into(), max_qos: 1, no_local: false, rap: false, rh: 0 }], props: vec![], cancel_at: None }),
-        _ => Step::Unsubscribe(UnsubSpec { filters: vec!["w".into(), "x/y".into()], props: vec![], cancel_at: None }),
+        3 => Step::Unsubscribe(UnsubSpec { filters: vec!["w".into(), "x/y".into()], props: vec![], cancel_at: None }),
+        // the request given up inside its own packet is the DISCONNECT itself: held in the inline
+        // control storage (reason only) or parked in the arena (with properties)
+        4 => Step::Disconnect(DiscSpec { reason: Some(*rng.pick(&[4u8, 0x98])), props: None, cancel_at: None }),
+        _ => Step::Disconnect(DiscSpec { reason: *rng.pick(&[None, Some(4u8)]), props: Some(vec![Prop::ReasonString("closing for the night".into())]), cancel_at: None }),
     };
     let next = match rng.below(8) {
         0 | 1 => Step::Disconnect(DiscSpec { reason: *rng.pick(&[None, Some(4u8)]), props: None, cancel_at: None }),
@@ -1235,6 +1243,12 @@ fn send_buffer_full(rng: &mut Rng, seed: u64, verbose: bool) -> CaseOut {
     let k2 = rng.below(len - k);
     let chunks = [Chunk::All, Chunk::One, Chunk::Fixed(2), Chunk::Fixed(3), Chunk::AltOneAll, Chunk::AllButOne];
     let mut reference: Option<(Vec<u8>, Vec<String>)> = None;
+    // the stream of the run in which the send buffer never fills up and every write is taken whole
+    let unstalled: Vec<u8> = {
+        let (_l, w) = run_script(&cfg, vec![connect_with(SpMode::Force(false), AckMode::Hold, vec![]), request.clone(), next.clone(), poll0(), poll0()], seed);
+        let w = w.borrow();
+        w.conns[0].out.bytes.clone()
+    };
     for (vi, ch) in chunks.iter().enumerate() {
         let again = restall && vi % 2 == 1;
         let mut steps = vec![
@@ -1277,6 +1291,21 @@ fn send_buffer_full(rng: &mut Rng, seed: u64, verbose: bool) -> CaseOut {
         if let Some((off, why)) = &w.conns[0].out.error {
             out.violations.push(viol("C15", "C15/send-buffer-full/stream-not-decodable", format!("request given up after {} of {} bytes, then {} with writes accepted {:?}: the outbound stream does not decode at offset {}: {}", k, len, next.kind(), ch, off, why)));
             break;
+        }
+        // ... and, the request having been in the session when it was given up, the same stream as
+        // without any stall
+        if stuck && log.ops.get(1).is_some_and(|o| !o.new_retained.is_empty() || o.kind == "disconnect") && bytes != unstalled {
+            let at = unstalled.iter().zip(&bytes).position(|(a, b)| a != b).unwrap_or(unstalled.len().min(bytes.len()));
+            out.violations.push(viol("C15", "C15/send-buffer-full/stream-differs-from-the-unstalled-run", format!("{} given up after {} of {} bytes, then {} with writes accepted {:?}: the outbound stream differs from the run without a stall at byte {} ({} vs {} bytes): {:02x?} vs {:02x?}", request.kind(), k, len, next.kind(), ch, at, bytes.len(), unstalled.len(), &bytes[at.min(bytes.len())..bytes.len().min(at + 12)], &unstalled[at.min(unstalled.len())..unstalled.len().min(at + 12)])));
+            if verbose {
+                for l in render(&log, &w, 300) {
+                    println!("{}", l);
+                }
+            }
+            break;
+        }
+        if stuck {
+            out.count("stalled_runs_compared_with_the_unstalled_run", 1);
         }
         let results: Vec<String> = log.ops.iter().enumerate().filter(|(i, _)| !(again && *i == 2)).map(|(_, o)| format!("{}:{:?}", o.kind, o.outcome)).collect();
         match &reference {
@@ -1838,7 +1867,7 @@ impl Check for C15 {
         "exploration"
     }
     fn rule(&self) -> String {
-        "differential twin runs: a generated program (benign faults only: broker DISCONNECT / close) is recorded with whole-buffer reads and writes and re-executed, step for step, under (a) every one of the 2^(n-1) chunkings of the first connection's inbound stream when it is at most 12 bytes long, sampled chunkings (1 byte, 2 bytes, random, splits after byte 1 and inside the length) otherwise, and (b) write acceptance patterns {1 byte, random, alternating 1/all, all-but-one, 3 bytes}, each with and without a Pending before every call. Operation results, delivered messages and the outbound byte stream of every connection must equal the reference. (b') workload send-buffer-full-inside-a-packet: a request is given up inside its own packet on a full send buffer, the next call (disconnect, poll, QoS 0/1/2 publish, subscribe, unsubscribe) finishes it under six write patterns - and, every other pattern, finds the buffer full a second time while doing so, is given up as well and made again: stream and results as with whole writes and no second stall. (c) time-gapped delivery: the same program with the inbound stream stalling 0..20 bytes into whatever the broker sends next (inside packets), the abandoned poll()/recv() repeated; (d) workload stalls-under-keepalive: keep-alive 1/2/10 s and stalls that outlast the client's own deadline, so that the library itself abandons a read in the middle of a packet, sends PINGREQ and resumes: delivered messages, results of all requests, errors and outbound packets other than PINGREQ must equal the run without stalls. Non-trivial iff the variant split at least one packet; distinct = distinct abstract traces x policy.".into()
+        "differential twin runs: a generated program (benign faults only: broker DISCONNECT / close) is recorded with whole-buffer reads and writes and re-executed, step for step, under (a) every one of the 2^(n-1) chunkings of the first connection's inbound stream when it is at most 12 bytes long, sampled chunkings (1 byte, 2 bytes, random, splits after byte 1 and inside the length) otherwise, and (b) write acceptance patterns {1 byte, random, alternating 1/all, all-but-one, 3 bytes}, each with and without a Pending before every call. Operation results, delivered messages and the outbound byte stream of every connection must equal the reference. (b') workload send-buffer-full-inside-a-packet: a request (QoS 1/2 publish, SUBSCRIBE, UNSUBSCRIBE, disconnect() with a reason, disconnect_with() with properties) is given up inside its own packet on a full send buffer, the next call (disconnect, poll, QoS 0/1/2 publish, subscribe, unsubscribe) finishes it under six write patterns - and, every other pattern, finds the buffer full a second time while doing so, is given up as well and made again: stream and results as with whole writes and no second stall. (c) time-gapped delivery: the same program with the inbound stream stalling 0..20 bytes into whatever the broker sends next (inside packets), the abandoned poll()/recv() repeated; (d) workload stalls-under-keepalive: keep-alive 1/2/10 s and stalls that outlast the client's own deadline, so that the library itself abandons a read in the middle of a packet, sends PINGREQ and resumes: delivered messages, results of all requests, errors and outbound packets other than PINGREQ must equal the run without stalls. Non-trivial iff the variant split at least one packet; distinct = distinct abstract traces x policy.".into()
     }
     fn assumptions(&self) -> Vec<String> {
         let mut v: Vec<String> = COMMON_ASSUME.iter().map(|s| s.to_string()).collect();
